@@ -1,16 +1,22 @@
 // Package ring drives real route.ConsistentHashing routes for C15.  It only records: which
-// destination's counter accounts for every dispatched line, the ring the route dispatches with
-// (hook VerifRing) and the route's destination list after every membership change.  The verdict
-// is taken by TLC (spec/HashRingTrace.tla) with ring positions computed by tools/carbon_ring.py.
+// destination accounts for every dispatched line (its drop counters while it has no connection,
+// the lines received by the driver's loopback listener it is connected to otherwise), the ring the
+// route dispatches with (hook VerifRing) and the route's destination list after every membership
+// change (Add, DelDestination, UpdateDestination addr=...).  The verdict is taken by TLC
+// (spec/HashRingTrace.tla) with ring positions computed by tools/carbon_ring.py.
 package ring
 
 import (
 	"encoding/json"
 	"fmt"
+	"bufio"
 	"io/ioutil"
 	stdlog "log"
+	"net"
 	"os"
 	"path/filepath"
+	"strings"
+	"sync"
 	"sync/atomic"
 	"testing"
 	"time"
@@ -27,15 +33,20 @@ import (
 
 type node struct {
 	ID   int    `json:"id"`
-	Addr string `json:"addr"` // as given to destination.New: host[:port[:instance]]
+	Addr string `json:"addr"` // as given to destination.New: host[:port[:instance]] (refusing nodes)
 	Host string `json:"host"`
 	Inst string `json:"inst"` // "" = no instance
+	// Listen > 0: the node is served by a loopback listener of the driver (group Listen, bound
+	// to Host:0; nodes of one group share host and port and differ in the instance only); its
+	// address is Host:<port of the listener>[:Inst].  0 = the address in Addr refuses connections.
+	Listen int `json:"listen"`
 }
 
 type op struct {
-	Op   string `json:"op"` // add | del
+	Op   string `json:"op"` // add | del | upd
 	Node int    `json:"node"`
 	Slot int    `json:"slot"`
+	Alt  int    `json:"alt"` // add/upd of a listening node: 1 = the second listener (another port) of its group
 }
 
 type history struct {
@@ -49,14 +60,70 @@ type history struct {
 
 var progressTick int64
 
-func newDest(routeName string, n node) *dest.Destination {
+// listener is a loopback line sink owned by the driver.  It only counts the names it receives.
+type listener struct {
+	id   int
+	addr string // host:port
+	l    net.Listener
+	mu   sync.Mutex
+	got  map[string]int // metric name -> lines received since the last take()
+}
+
+func listen(id int, host string) *listener {
+	l, err := net.Listen("tcp", host+":0")
+	if err != nil {
+		panic(fmt.Sprintf("VERIF-LISTEN: cannot listen on %s: %v", host, err))
+	}
+	ls := &listener{id: id, addr: l.Addr().String(), l: l, got: map[string]int{}}
+	go func() {
+		for {
+			c, err := l.Accept()
+			if err != nil {
+				return
+			}
+			go func(c net.Conn) {
+				defer c.Close()
+				sc := bufio.NewScanner(c)
+				sc.Buffer(make([]byte, 1<<16), 1<<20)
+				for sc.Scan() {
+					f := strings.Fields(sc.Text())
+					if len(f) == 0 {
+						continue
+					}
+					ls.mu.Lock()
+					ls.got[f[0]]++
+					ls.mu.Unlock()
+				}
+			}(c)
+		}
+	}()
+	return ls
+}
+
+func (ls *listener) seen(name string) int {
+	ls.mu.Lock()
+	defer ls.mu.Unlock()
+	return ls.got[name]
+}
+
+func (ls *listener) take() map[string]int {
+	ls.mu.Lock()
+	defer ls.mu.Unlock()
+	g := ls.got
+	ls.got = map[string]int{}
+	return g
+}
+
+func newDest(routeName, addr string) *dest.Destination {
 	m, err := matcher.New("", "", "", "", "", "")
 	if err != nil {
 		panic(err)
 	}
-	// refusing / unusable address, no spool: every line is counted as conn_down_no_spool by
-	// the destination that received it.  One connection attempt at start, the next in an hour.
-	d, err := dest.New(routeName, m, n.Addr, "", false, false, time.Second, time.Hour, 100, 4096, 100, 1000, 10,
+	// no spool: while the destination has no connection every line is counted as
+	// conn_down_no_spool by the destination that received it.  One connection attempt at start
+	// (and one per address update), the next in an hour.  The connection buffer is larger than
+	// any batch of keys, so a connected destination has no reason to drop (slow_conn is read too).
+	d, err := dest.New(routeName, m, addr, "", false, false, time.Second, time.Hour, 1<<16, 4096, 100, 1000, 10,
 		time.Second, time.Millisecond, time.Millisecond)
 	if err != nil {
 		panic(err)
@@ -64,8 +131,11 @@ func newDest(routeName string, n node) *dest.Destination {
 	return d
 }
 
-func counterOf(d *dest.Destination) metrics.Counter {
-	return stats.Counter("dest=" + d.Key + ".unit=Metric.action=drop.reason=conn_down_no_spool")
+// the counters with which a destination accounts for a line it does not write to a connection
+func countersOf(d *dest.Destination) [2]metrics.Counter {
+	return [2]metrics.Counter{
+		stats.Counter("dest=" + d.Key + ".unit=Metric.action=drop.reason=conn_down_no_spool"),
+		stats.Counter("dest=" + d.Key + ".unit=Metric.action=drop.reason=slow_conn")}
 }
 
 type runner struct {
@@ -74,6 +144,28 @@ type runner struct {
 	r     route.Route
 	ch    *route.ConsistentHashing
 	byKey map[string]int // host|inst -> node id
+	byID  map[int]node
+	lis   map[[2]int]*listener // (group, alt) -> listener
+	all   []*listener
+	nsent int
+}
+
+// the address of a node: as given (refusing) or on a listener of the driver
+func (x *runner) addrOf(n node, alt int) string {
+	if n.Listen == 0 {
+		return n.Addr
+	}
+	k := [2]int{n.Listen, alt}
+	ls := x.lis[k]
+	if ls == nil {
+		ls = listen(len(x.all)+1, n.Host)
+		x.lis[k] = ls
+		x.all = append(x.all, ls)
+	}
+	if n.Inst == "" {
+		return ls.addr
+	}
+	return ls.addr + ":" + n.Inst
 }
 
 func (x *runner) destList() []*dest.Destination {
@@ -115,49 +207,202 @@ func (x *runner) emitRing() {
 	x.log.Emit(map[string]interface{}{"ev": "ring", "h": x.h.H, "ndest": nd, "dl": dl, "ring": ents})
 }
 
-// dispatch every key once, one at a time; Flush() is the barrier after which the destination
-// that received the line has counted it.
+// dispatch every key once, one at a time.  A destination without a connection counts the line
+// (Flush() is the barrier after which it has done so); a connected destination writes it to the
+// listener of the driver it is connected to.  After the last key a sentinel line is put into every
+// destination directly (not through the route): a connection is an ordered stream, so once a
+// listener has the sentinel of its destination it has every line the destination wrote before.
+// got[k] = [slot, n] for every destination that accounted for key k (n times), slot < 0 = a
+// listener that no destination of the route is configured for.
 func (x *runner) dispatchAll() {
 	ds := x.destList()
-	cs := make([]metrics.Counter, len(ds))
-	c0 := make([]int64, len(ds))
+	cs := make([][2]metrics.Counter, len(ds))
+	c0 := make([][2]int64, len(ds))
+	slotOf := map[*listener]int{}
+	ambiguous := false
 	for i, d := range ds {
-		cs[i] = counterOf(d)
-		c0[i] = cs[i].Count()
+		cs[i] = countersOf(d)
+		c0[i] = [2]int64{cs[i][0].Count(), cs[i][1].Count()}
+		for _, ls := range x.all {
+			if ls.addr == d.Addr {
+				if _, dup := slotOf[ls]; dup {
+					ambiguous = true
+				}
+				slotOf[ls] = i
+			}
+		}
+	}
+	for _, ls := range x.all {
+		ls.take()
 	}
 	got := make([][][2]int, len(x.h.Keys))
+	idx := make(map[string]int, len(x.h.Keys))
+	flushErrs := 0
 	for k, name := range x.h.Keys {
 		atomic.AddInt64(&progressTick, 1)
+		idx[name] = k
 		x.r.Dispatch([]byte(name + " 1 1500000000"))
-		x.r.Flush()
+		if x.r.Flush() != nil {
+			flushErrs++
+		}
 		g := [][2]int{}
 		for i := range cs {
-			c := cs[i].Count()
-			if c != c0[i] {
-				g = append(g, [2]int{i, int(c - c0[i])})
-				c0[i] = c
+			n := 0
+			for j := 0; j < 2; j++ {
+				c := cs[i][j].Count()
+				n += int(c - c0[i][j])
+				c0[i][j] = c
+			}
+			if n != 0 {
+				g = append(g, [2]int{i, n})
 			}
 		}
 		got[k] = g
+	}
+	// barrier for the connected destinations
+	x.nsent++
+	missed := []int{}
+	nonline := 0
+	for i, d := range ds {
+		if !d.Online {
+			continue
+		}
+		nonline++
+		var ls *listener
+		for _, c := range x.all {
+			if c.addr == d.Addr {
+				ls = c
+			}
+		}
+		if ls == nil {
+			missed = append(missed, i)
+			continue
+		}
+		name := fmt.Sprintf("c15.sentinel.%d.%d", x.nsent, i)
+		d.In <- []byte(name + " 1 1500000000")
+		deadline := time.Now().Add(30 * time.Second)
+		for ls.seen(name) == 0 {
+			atomic.AddInt64(&progressTick, 1)
+			if time.Now().After(deadline) {
+				missed = append(missed, i)
+				break
+			}
+			d.Flush()
+			time.Sleep(200 * time.Microsecond)
+		}
+	}
+	// the sentinel of a destination that lost its connection meanwhile is counted, not written
+	extra := 0
+	for _, ls := range x.all {
+		for name, n := range ls.take() {
+			k, ok := idx[name]
+			if !ok {
+				if !strings.HasPrefix(name, "c15.sentinel.") {
+					extra += n
+				}
+				continue
+			}
+			slot, ok := slotOf[ls]
+			if !ok {
+				slot = -ls.id
+			}
+			got[k] = append(got[k], [2]int{slot, n})
+		}
 	}
 	online := []bool{}
 	for _, d := range x.r.Snapshot().Dests {
 		online = append(online, d.Online)
 	}
-	x.log.Emit(map[string]interface{}{"ev": "disp", "h": x.h.H, "got": got, "online": online})
+	x.log.Emit(map[string]interface{}{"ev": "disp", "h": x.h.H, "got": got, "online": online, "nonline": nonline,
+		"missed": missed, "ambiguous": ambiguous, "extra": extra, "flusherrs": flushErrs})
+}
+
+// a destination on a listener of the driver dials when it starts to run: wait until its relay loop
+// has the connection, so that a batch of keys is not half counted and half written (both would be
+// recorded, this only keeps the observation uniform)
+func (x *runner) waitOnline() {
+	deadline := time.Now().Add(20 * time.Second)
+	for _, d := range x.destList() {
+		mine := false
+		for _, ls := range x.all {
+			mine = mine || ls.addr == d.Addr
+		}
+		for mine && !d.Online && time.Now().Before(deadline) {
+			atomic.AddInt64(&progressTick, 1)
+			time.Sleep(200 * time.Microsecond)
+		}
+	}
+}
+
+// change the address of the destination in a slot (the "modDest <route> <slot> addr=..." command)
+func (x *runner) update(o op) {
+	n := x.byID[o.Node]
+	addr := x.addrOf(n, o.Alt)
+	hostport, inst := addr, ""
+	if strings.Count(addr, ":") == 2 {
+		i := strings.LastIndex(addr, ":")
+		hostport, inst = addr[:i], addr[i+1:]
+	}
+	ev := map[string]interface{}{"ev": "upd", "h": x.h.H, "slot": o.Slot, "node": o.Node, "alt": o.Alt, "addr": addr}
+	before, err := x.r.GetDestination(o.Slot)
+	if err != nil {
+		ev["err"] = err.Error()
+		x.log.Emit(ev)
+		return
+	}
+	ev["from"] = before.Addr + "|" + before.Instance
+	err = x.r.UpdateDestination(o.Slot, map[string]string{"addr": addr})
+	if err != nil {
+		ev["err"] = err.Error()
+	}
+	// Destination.Update dials synchronously and takes the new address over only when the dial
+	// succeeded; for an address of the driver's own listener that is expected: wait for it
+	adopted := false
+	deadline := time.Now().Add(20 * time.Second)
+	for {
+		d, err := x.r.GetDestination(o.Slot)
+		if err == nil && d.Addr == hostport && d.Instance == inst {
+			adopted = true
+			break
+		}
+		if n.Listen == 0 || time.Now().After(deadline) {
+			if err == nil {
+				ev["now"] = d.Addr + "|" + d.Instance
+			}
+			break
+		}
+		atomic.AddInt64(&progressTick, 1)
+		time.Sleep(time.Millisecond)
+	}
+	ev["adopted"] = adopted
+	if adopted && n.Listen != 0 {
+		// the relay loop takes the new connection over asynchronously
+		d, _ := x.r.GetDestination(o.Slot)
+		for !d.Online && time.Now().Before(deadline) {
+			atomic.AddInt64(&progressTick, 1)
+			time.Sleep(200 * time.Microsecond)
+		}
+		ev["online"] = d.Online
+	}
+	x.log.Emit(ev)
 }
 
 func runHistory(h *history, log *hx.Log, progress *hx.Log) {
-	x := &runner{h: h, log: log, byKey: map[string]int{}}
-	byID := map[int]node{}
+	x := &runner{h: h, log: log, byKey: map[string]int{}, byID: map[int]node{}, lis: map[[2]int]*listener{}}
+	byID := x.byID
 	for _, n := range h.Nodes {
 		x.byKey[n.Host+"|"+n.Inst] = n.ID
 		byID[n.ID] = n
 	}
+	defer func() {
+		for _, ls := range x.all {
+			ls.l.Close()
+		}
+	}()
 	progress.Emit(map[string]interface{}{"h": h.H, "step": "init"})
 	var ds []*dest.Destination
 	for _, id := range h.Init {
-		ds = append(ds, newDest(h.Route, byID[id]))
+		ds = append(ds, newDest(h.Route, x.addrOf(byID[id], 0)))
 	}
 	m, _ := matcher.New("", "", "", "", "", "")
 	r, err := route.NewConsistentHashing(h.Route, m, ds)
@@ -167,14 +412,17 @@ func runHistory(h *history, log *hx.Log, progress *hx.Log) {
 	x.r = r
 	x.ch = r.(*route.ConsistentHashing)
 	log.Emit(map[string]interface{}{"ev": "init", "h": h.H, "members": h.Init})
+	x.waitOnline()
 	x.emitRing()
 	x.dispatchAll()
 	for i, o := range h.Ops {
 		progress.Emit(map[string]interface{}{"h": h.H, "step": i, "op": o})
 		switch o.Op {
 		case "add":
-			x.ch.Add(newDest(h.Route, byID[o.Node]))
+			x.ch.Add(newDest(h.Route, x.addrOf(byID[o.Node], o.Alt)))
 			log.Emit(map[string]interface{}{"ev": "add", "h": h.H, "node": o.Node})
+		case "upd":
+			x.update(o)
 		case "del":
 			err := x.r.DelDestination(o.Slot)
 			if err != nil {
@@ -183,6 +431,7 @@ func runHistory(h *history, log *hx.Log, progress *hx.Log) {
 			}
 			log.Emit(map[string]interface{}{"ev": "del", "h": h.H, "slot": o.Slot})
 		}
+		x.waitOnline()
 		x.emitRing()
 		x.dispatchAll()
 	}
